@@ -6,6 +6,7 @@ package main
 import (
 	"fmt"
 	"reflect"
+	"unicode/utf8"
 
 	"github.com/hprose/hprose-golang/v3/rpc/codec/jsonrpc"
 	"github.com/hprose/hprose-golang/v3/rpc/core"
@@ -70,10 +71,16 @@ func runJReq(c *caseD) (out outcome) {
 	out.data = data
 	switch {
 	case msg != "":
-		out.v = c.viol(c.sig("panic", stage, c.Shape, "at="+iocase.PanicSite(stack)), "panic in "+stage+": "+msg, data)
+		out.v = c.viol(c.sig("panic", stage, "at="+iocase.PanicSite(stack), panicClass(msg)), "panic in "+stage+": "+msg, data)
 		return
 	case encErr != nil:
 		out.v = c.viol(c.sig("encode-error"), "jsonrpc client codec Encode: "+encErr.Error(), data)
+		return
+	case decErr != nil && sc.Method == nil:
+		out.v = c.viol(c.sig("method", "not-resolved"), fmt.Sprintf("registered %q, called %q: %s", nm.Reg, nm.Call, decErr.Error()), data)
+		return
+	case decErr != nil && countMismatch[c.Shape]:
+		out.noValue = true
 		return
 	case decErr != nil:
 		out.v = c.viol(c.sig("args", c.Shape, "decode-error"), "jsonrpc service codec Decode: "+decErr.Error(), data)
@@ -93,7 +100,7 @@ func runJReq(c *caseD) (out outcome) {
 		return
 	}
 	if want, have := hdrJ[c.Hdr].canon, headerCanon(sc.RequestHeaders(), true); want != have {
-		out.v = c.viol(c.sig("headers", hdrNames[c.Hdr], "value-differs"), fmt.Sprintf("headers want %s got %s", trunc(want, 300), trunc(have, 300)), data)
+		out.v = c.viol(c.sig("headers", "value-differs"), fmt.Sprintf("headers want %s got %s", trunc(want, 300), trunc(have, 300)), data)
 		return
 	}
 	if len(gotArgs) != len(args) {
@@ -102,8 +109,13 @@ func runJReq(c *caseD) (out outcome) {
 	}
 	for i, a := range args {
 		if want, have := jcanon(a.Canon), jcanonOf(gotArgs[i]); have != want {
-			out.v = c.viol(c.sig("args", c.Shape, "value-differs", "type="+a.T.String(), "dest="+destName(si.dest[i])),
-				fmt.Sprintf("argument %d: want %s got %s (%T)", i, trunc(want, 300), trunc(have, 300), gotArgs[i]), data)
+			out.v = c.viol(c.sig("args", c.Shape, "value-differs"),
+				fmt.Sprintf("argument %d (%s -> %s): want %s got %s (%T)", i, a.T, destName(si.dest[i]), trunc(want, 300), trunc(have, 300), gotArgs[i]), data)
+			return
+		}
+		if typeDiffers(gotArgs[i], si.dest[i]) {
+			out.v = c.viol(c.sig("args", c.Shape, "type-differs"),
+				fmt.Sprintf("argument %d: decoded as %T for parameter type %s", i, gotArgs[i], si.dest[i]), data)
 			return
 		}
 	}
@@ -180,22 +192,24 @@ func runJResp(c *caseD) (out outcome) {
 	out.data = data
 	noValue := nrt == 1 && nres >= 2 || nrt >= 2 && nres == 1 && res[0].ListLike
 	out.noValue = noValue
-	cell := c.Shape
 	switch {
 	case msg != "":
-		out.v = c.viol(c.sig("panic", stage, cell, "at="+iocase.PanicSite(stack)), "panic in "+stage+": "+msg, data)
+		out.v = c.viol(c.sig("panic", stage, "at="+iocase.PanicSite(stack), panicClass(msg)), "panic in "+stage+": "+msg, data)
 		return
 	case encErr != nil:
 		out.v = c.viol(c.sig("encode-error"), "jsonrpc service codec "+stage+": "+encErr.Error(), data)
 		return
 	case noValue:
 		return
+	case decErr != nil && nrt != nres && nrt != 0:
+		out.noValue = true
+		return
 	case decErr != nil:
 		out.v = c.viol(c.sig("result", c.Shape, "decode-error"), "jsonrpc client codec Decode: "+decErr.Error(), data)
 		return
 	}
 	if want, have := hdrJ[c.Hdr].canon, headerCanon(cc.ResponseHeaders(), true); want != have {
-		out.v = c.viol(c.sig("headers", hdrNames[c.Hdr], "value-differs"), fmt.Sprintf("headers want %s got %s", trunc(want, 300), trunc(have, 300)), data)
+		out.v = c.viol(c.sig("headers", "value-differs"), fmt.Sprintf("headers want %s got %s", trunc(want, 300), trunc(have, 300)), data)
 		return
 	}
 	if nrt == 0 {
@@ -211,10 +225,15 @@ func runJResp(c *caseD) (out outcome) {
 		} else {
 			have = jcanon(zeroCanon(si.params[i]))
 		}
+		if i < len(got) && typeDiffers(got[i], si.params[i]) {
+			out.v = c.viol(c.sig("result", c.Shape, "type-differs"),
+				fmt.Sprintf("result %d: decoded as %T for return type %s", i, got[i], si.params[i]), data)
+			return
+		}
 		if i < nres {
 			if want := jcanon(res[i].Canon); have != want {
-				out.v = c.viol(c.sig("result", c.Shape, "value-differs", "type="+res[i].T.String(), "dest="+destName(si.params[i])),
-					fmt.Sprintf("result %d: want %s got %s", i, trunc(want, 300), trunc(have, 300)), data)
+				out.v = c.viol(c.sig("result", c.Shape, "value-differs"),
+					fmt.Sprintf("result %d (%s -> %s): want %s got %s", i, res[i].T, destName(si.params[i]), trunc(want, 300), trunc(have, 300)), data)
 				return
 			}
 		} else if want := jcanon(zeroCanon(si.params[i])); have != want {
@@ -227,6 +246,10 @@ func runJResp(c *caseD) (out outcome) {
 
 func runJErr(c *caseD) (out outcome) {
 	ec := errCases[c.Err]
+	if !utf8.ValidString(ec.Msg) {
+		out.skipped = true // a JSON string cannot carry bytes that are not UTF-8
+		return
+	}
 	rt := errRT[shapeIndex(errShapes, c.Shape)]
 	cc := core.NewClientContext()
 	cc.ReturnType = rt
@@ -254,7 +277,7 @@ func runJErr(c *caseD) (out outcome) {
 	out.data = data
 	switch {
 	case msg != "":
-		out.v = c.viol(c.sig("panic", stage, "error", "at="+iocase.PanicSite(stack)), "panic in "+stage+": "+msg, data)
+		out.v = c.viol(c.sig("panic", stage, "at="+iocase.PanicSite(stack), panicClass(msg)), "panic in "+stage+": "+msg, data)
 		return
 	case encErr != nil:
 		out.v = c.viol(c.sig("encode-error"), "jsonrpc service codec "+stage+": "+encErr.Error(), data)
@@ -272,7 +295,7 @@ func runJErr(c *caseD) (out outcome) {
 		return
 	}
 	if want, have := hdrJ[c.Hdr].canon, headerCanon(cc.ResponseHeaders(), true); want != have {
-		out.v = c.viol(c.sig("headers", hdrNames[c.Hdr], "value-differs"), fmt.Sprintf("headers want %s got %s", trunc(want, 300), trunc(have, 300)), data)
+		out.v = c.viol(c.sig("headers", "value-differs"), fmt.Sprintf("headers want %s got %s", trunc(want, 300), trunc(have, 300)), data)
 	}
 	return
 }
